@@ -110,10 +110,11 @@ structure ASet where
 
 def ASet.has (s : ASet) (d : Nat) : Bool := s.entries.any fun e => e.1 == d
 
-/-- first strictly smallest entry, starting from an accumulator (`calcMinLatency`'s scan). -/
+/-- first strictly smallest entry, starting from an accumulator (`calcMinLatency`'s scan; with no
+candidate yet the first entry is taken whatever its latency — `time.Hour` is only a start value). -/
 def minEntry : List (Nat × Int) → Option Nat × Int → Option Nat × Int
   | [], acc => acc
-  | (d, l) :: es, (md, ml) => if l < ml then minEntry es (some d, l) else minEntry es (md, ml)
+  | (d, l) :: es, (md, ml) => if md.isNone || decide (l < ml) then minEntry es (some d, l) else minEntry es (md, ml)
 
 /-- the hysteresis test shared by `NotifyLatencyChange` and `calcMinLatency`: `l` beats the
 current best by at least the tolerance (or the current best is below the tolerance). -/
@@ -156,7 +157,7 @@ def ASet.phase1 (s : ASet) (d : Nat) (alive : Bool) (lat : Option Int) : ASet ×
 
 /-- the best-node update of the `hasLatency` branch (`bakLat` = best latency before). -/
 def ASet.reselect (s : ASet) (d : Nat) (alive : Bool) (l bakLat : Int) : ASet :=
-  if alive && s.better l then s.setMin (some d) l
+  if alive && (s.minD.isNone || s.better l) then s.setMin (some d) l
   else if s.minD = some d then
     if !alive || decide (l > bakLat) then (s.setMin (if alive then some d else none) l).calcMin
     else s.setMin (some d) l
